@@ -62,7 +62,7 @@ def strategy_(g):
             else:
                 edges.append({"t": "lm", "ids": [rnd.randrange(nv), nv + rnd.randrange(nl)]})
         bad_kind = g.choice(["offset-type", "offset-none", "measurement-type", "information-shape", "vertex-count", "unknown-id", "pose-types", "none"])
-        return {"shape": "big", "base": base, "nv": nv, "nl": nl, "edges": edges, "bad": bad_kind, "pos": rnd.randrange(ne), "like": g.choice(["odo", "lm"])}
+        return {"shape": "big", "base": base, "nv": nv, "nl": nl, "edges": edges, "bad": bad_kind, "pos": rnd.randrange(ne), "like": g.choice(["odo", "lm"]), "fixed": g.choice(["none", "none", "all", "some"])}
     case = GG.gen(g, n_pose=(2, 6), n_lm=(0, 3), n_loops=(0, 3), features=("parallel", "reversed", "permute", "ids", "custom", "quat-signs", "lm_odo", "pure-translation-steps"), custom_flavour="ana")
     case["shape"] = "graph"
     case["break_edge"] = g.rnd.randrange(10**6)
@@ -130,13 +130,23 @@ def predicate(case):
 
 
 def _check_combo(case, ctx):
-    ek, vk, mk, ok, ish, present = case["ek"], case["vk"], case["mk"], case["ok"], case["ish"], case["present"]
     valid, nbad = predicate(case)
     ctx.nontrivial(nbad <= 1)
-    ctx.event("combo:%s:%s" % (ek, "valid" if valid else "invalid-%d" % min(nbad, 3)))
+    ctx.event("combo:%s:%s" % (case["ek"], "valid" if valid else "invalid-%d" % min(nbad, 3)))
+    # the fixed flags of the vertices have no bearing on validity: consistent combinations and near misses are also constructed
+    # over anchored vertices (all fixed / only the named ones fixed / alternating)
+    for fx in ["none"] + (["all", "named", "alternating"] if nbad <= 1 else []):
+        if _combo_once(case, ctx, valid, nbad, fx):
+            return
+
+
+def _combo_once(case, ctx, valid, nbad, fx):
+    ek, vk, mk, ok, ish, present = case["ek"], case["vk"], case["mk"], case["ok"], case["ish"], case["present"]
     nv = len(vk)
-    verts = [gs.Vertex(10 + i, _pose(k)) for i, k in enumerate(vk)]
-    extra = gs.Vertex(5, _pose("se2"))
+    verts = [gs.Vertex(10 + i, _pose(k), fixed=(fx in ("all", "named") or (fx == "alternating" and i % 2 == 0))) for i, k in enumerate(vk)]
+    extra = gs.Vertex(5, _pose("se2"), fixed=(fx == "all"))
+    if fx != "none":
+        ctx.event("combo-fixed:" + fx)
     ids = [10 + i if p else 100 + i for i, p in enumerate(present)]
     if case.get("dup"):
         ids[case["dup"][0]] = ids[case["dup"][1]]
@@ -155,22 +165,23 @@ def _check_combo(case, ctx):
         raised = None
     except Exception as exc:  # noqa: BLE001
         raised = exc
-    what = "%s edge over %s, measurement %s, offset %s, information %s, ids present %s" % (ek, vk, mk, ok, ish, present)
+    what = "%s edge over %s, measurement %s, offset %s, information %s, ids present %s%s" % (ek, vk, mk, ok, ish, present, "" if fx == "none" else ", fixed vertices: " + fx)
     if valid and raised is not None:
-        return ctx.fail("consistent-edge-rejected", "%s: %s: %s" % (what, type(raised).__name__, raised))
+        return ctx.fail("consistent-edge-rejected", "%s: %s: %s" % (what, type(raised).__name__, raised)) or True
     if not valid and raised is None:
         only_pairing = ek == "lm" and nbad == 1 and nv == 2 and (vk[0], vk[1]) not in SUPPORTED_LM
         sig = "inconsistent-edge-accepted" + (":landmark-pairing" if only_pairing else "")
-        return ctx.fail(sig, what)
+        return ctx.fail(sig, what) or True
     if valid:
         for i, v in enumerate(edge.vertices):
             if v is not verts[i] or v.id != edge.vertex_ids[i]:
-                return ctx.fail("edge-bound-to-wrong-vertex", what)
+                return ctx.fail("edge-bound-to-wrong-vertex", what) or True
         chi = float(edge.calc_chi2())
         if not np.isfinite(chi):
-            return ctx.fail("accepted-edge-chi2-nonfinite", what)
+            return ctx.fail("accepted-edge-chi2-nonfinite", what) or True
         if not np.isfinite(float(g.calc_chi2())):
-            return ctx.fail("accepted-edge-chi2-nonfinite", what)
+            return ctx.fail("accepted-edge-chi2-nonfinite", what) or True
+    return False
 
 
 def _check_graph(case, ctx):
@@ -233,6 +244,10 @@ def _check_big(case, ctx):
     ctx.event("big-graph-bad:" + case["bad"])
     ctx.nontrivial(True)
     verts = [gs.Vertex(i, _pose(base)) for i in range(nv)] + [gs.Vertex(nv + i, _pose(pk)) for i in range(nl)]
+    fxm = case.get("fixed", "none")
+    ctx.event("big-graph-fixed:" + fxm)
+    for i, v in enumerate(verts):
+        v.fixed = fxm == "all" or (fxm == "some" and i % 3 != 1)
     c, cp = R.CDIM[base], R.CDIM[pk]
 
     def mk(e):
